@@ -64,11 +64,14 @@ class B:
         rd.update(force)
         return rd
 
-    def build(self, root, render=None, pmode=True):
+    def build(self, root, render=None, pmode=True, store=None):
         cid = f'c{self.cids}'
         self.cids += 1
         render = render if render is not None else self.render()
-        self.op(op='build', cid=cid, root=root, render=render, pmode=pmode)
+        # name-mode chains live in their own data directory: readable links of a parameter-mode chain are named after
+        # the config, i.e. exactly like name-mode result files
+        store = store or ('main' if pmode else 'namemode')
+        self.op(op='build', cid=cid, root=root, render=render, pmode=pmode, store=store)
         self.chain_info[cid] = (root, render.get('outer_ns'))
         return cid
 
@@ -87,6 +90,38 @@ class B:
             # address without group (unique: task names are globally unique)
             form = A.fullname(it.ns, it.cspec['name'])
         return self.op(op='req', cid=cid, task=form, name=name, **kw)
+
+    def new_proc_reset(self):
+        self.live_all = []
+
+    def closure(self, cid, names):
+        """names + everything downstream, over computations (tasks that are one computation are one node)"""
+        insts = self.insts(cid)
+        ds = {insts[n].D for n in names}
+        changed = True
+        while changed:
+            changed = False
+            for it in insts.values():
+                if it.D not in ds and any(t.D in ds for t in it.inputs.values()):
+                    ds.add(it.D)
+                    changed = True
+        return [n for n, it in insts.items() if it.D in ds]
+
+    def delete_ok(self, cid, names, live):
+        """delete_data is generated only when no other live chain of this process may hold a *reference* value
+        (directory path, lazy reader) of a result that would be deleted: such a reference dies with the data, and what
+        a chain then computes from it is outside every listed property."""
+        insts = self.insts(cid)
+        doomed = {(insts[n].slug, insts[n].D) for n in self.closure(cid, names) if insts[n].kind in ('dir', 'cont', 'genlazy')}
+        if not doomed:
+            return True
+        for other in live:
+            if other == cid:
+                continue
+            for it in self.insts(other).values():
+                if (it.slug, it.D) in doomed:
+                    return False
+        return True
 
     def scenario(self, **meta):
         return dict(engine='storesim', world=self.world, procs=self.procs, **meta)
@@ -126,6 +161,7 @@ def gen_c05(r, knobs=None):
                     b.op(op='tforce', cid=cid, task=name, name=name, delete=r.random() < 0.2)
                 else:
                     b.op(op='cforce', cid=cid, tasks=[name], names=[name], recompute=False, delete=r.random() < 0.2)
+                # (one live chain per process in this profile: no other holder of reference values)
             fault_kind = None
             if not last:
                 cands = [k for k in ('crash', 'runfault', 'diskerr') if swarm[k]]
@@ -175,3 +211,282 @@ def _upstream_names(it):
         out.add(t.fullname)
         work.extend(t.inputs.values())
     return out
+
+
+# ---------------------------------------------------------------------------------------------------------------
+INSPECT_KINDS = ['has_data', 'data_path', 'run_info', 'log', 'tasks_df', 'links', 'repr', 'flags']
+
+
+def _equiv_render(b, root, base=None):
+    """a computation-preserving rewriting of the configuration of `root` (C02's quantifier)"""
+    r = b.r
+    rd = b.render(rich=True)
+    world = b.world
+    rt = world['roots'][root]
+    # move values from configs into the context (global: only if every mounting of that key agrees; else per namespace)
+    if r.random() < 0.4:
+        ms = A.mounts(world, rt)
+        ov = rt.get('overrides') or {}
+        moves = []
+        for ns, ci in ms:
+            cfg = world['configs'][ci]
+            for key in cfg['values']:
+                if r.random() < 0.3:
+                    if key in ov.get('global', {}) or any(key in d for d in ov.get('for_ns', {}).values()):
+                        continue
+                    same_everywhere = all(world['configs'][cj]['values'].get(key, cfg['values'][key]) == cfg['values'][key] and
+                                          (key in world['configs'][cj]['values'] or not _declares(world, cj, key))
+                                          for _, cj in ms)
+                    if same_everywhere and r.random() < 0.5:
+                        moves.append({'cfg': ci, 'key': key, 'to': 'global', 'ns': None})
+                    elif ns and _ns_unique_cfg(world, ms, ns, key, ci):
+                        moves.append({'cfg': ci, 'key': key, 'to': 'ns', 'ns': ns})
+        if moves:
+            # a config reached under several namespaces can only move a key if it moves for all of its mountings
+            ok = []
+            for mv in moves:
+                mounts_of = [ns for ns, cj in ms if cj == mv['cfg']]
+                if mv['to'] == 'global' or len(mounts_of) == 1:
+                    ok.append(mv)
+            rd['moves'] = ok
+            rd['force_ctx'] = True
+    if r.random() < 0.4:
+        rd['ignored_values'] = {}
+        for c in world['classes']:
+            for p in c['params']:
+                if p.get('ignore') and r.random() < 0.7:
+                    rd['ignored_values'][p.get('nic') or p['name']] = r.choice(p['pool'])
+    if r.random() < 0.5:
+        rd['global_vars'] = {'VA': r.choice(['/data', 'alpha', '']), 'VB': r.choice(['beta', '/x/y', '7'])}
+        if r.random() < 0.3:
+            rd['global_vars']['VC'] = 'gamma'
+    return rd
+
+
+def _declares(world, cj, key):
+    cfg = world['configs'][cj]
+    for cid in world['pipelines'][cfg['pipe']]['classes']:
+        for p in world['classes'][cid]['params']:
+            if (p.get('nic') or p['name']) == key:
+                return True
+    return False
+
+
+def _ns_unique_cfg(world, ms, ns, key, ci):
+    """for_namespaces[ns] applies to every config mounted at exactly ns: safe if no other config there declares the key"""
+    return all(cj == ci or not _declares(world, cj, key) for n2, cj in ms if n2 == ns)
+
+
+def _inspect(b, cid, kinds=None):
+    r = b.r
+    k = r.choice(kinds or INSPECT_KINDS)
+    d = dict(op='insp', cid=cid, kind=k)
+    if k == 'links':
+        d['name'] = r.choice([None, 'nice', 'nice2'])
+        d['keep'] = r.random() < 0.3
+    b.op(**d)
+
+
+def gen_c04(r, knobs=None):
+    """fault-free, force-free histories: constructions, requests, inspections, restarts; several roots sharing sub-pipelines."""
+    kn = {'n_roots': (1, 4), 'n_pipes': (1, 4)}
+    kn.update(knobs or {})
+    world = gen.gen_world(r, kn)
+    b = B(world, r)
+    nproc = r.randint(1, 4)
+    for pi in range(nproc):
+        b.proc(hs=r.choice([0, 0, 1, 2]))
+        live = []
+        for _ in range(r.randint(2, 12)):
+            t = r.random()
+            if not live or t < 0.2:
+                root = r.randrange(len(world['roots']))
+                rt = world['roots'][root]
+                pmode = True
+                rd = _equiv_render(b, root)
+                if not rt.get('overrides') and r.random() < 0.15:
+                    # name mode under its documented contract (DESIGN.md A4): fixed config names, no context
+                    pmode = False
+                    rd = {'form': r.choice(['mem', 'json']), 'perm': r.choice([0, 5])}
+                live.append(b.build(root, rd, pmode=pmode))
+            elif t < 0.7:
+                cid = r.choice(live)
+                b.req(cid, r.choice(b.names(cid)))
+            elif t < 0.95:
+                _inspect(b, r.choice(live))
+            else:
+                cid = live.pop(r.randrange(len(live)))
+                b.op(op='drop', cid=cid)
+    return b.scenario()
+
+
+def gen_c01(r, knobs=None):
+    """histories over one store with different roots/contexts/namespace mountings, forcing, run failures, restarts,
+    MultiChains - no crashes (those are C05's)."""
+    kn = {'n_roots': (2, 4), 'n_pipes': (1, 4), 'p_override': 0.6}
+    kn.update(knobs or {})
+    world = gen.gen_world(r, kn)
+    b = B(world, r)
+    nproc = r.randint(1, 4)
+    swarm = {'force': r.random() < 0.5, 'runfault': r.random() < 0.4, 'multi': r.random() < 0.3}
+    for pi in range(nproc):
+        b.proc(hs=r.choice([0, 1, 2]))
+        live = []
+        for _ in range(r.randint(3, 12)):
+            t = r.random()
+            if not live or t < 0.22:
+                root = r.randrange(len(world['roots']))
+                live.append(b.build(root, _equiv_render(b, root)))
+            elif t < 0.3 and swarm['multi'] and len(world['roots']) >= 2:
+                live += _mbuild(b, r)
+            elif t < 0.75:
+                cid = r.choice(live)
+                name = r.choice(b.names(cid))
+                if swarm['runfault'] and r.random() < 0.25:
+                    insts = b.insts(cid)
+                    ups = [name] + sorted(_upstream_names(insts[name]))
+                    b.op(op='armrun', slug=insts[r.choice(ups)].slug, kind=r.choice(RUN_FAULTS[:4]), at=0)
+                    b.req(cid, name)
+                    b.op(op='disarm')
+                b.req(cid, name)
+            elif t < 0.85 and swarm['force']:
+                cid = r.choice(live)
+                names = b.names(cid)
+                if r.random() < 0.5:
+                    n = r.choice(names)
+                    b.op(op='tforce', cid=cid, task=n, name=n, delete=r.random() < 0.3 and b.delete_ok(cid, [n], live))
+                else:
+                    ns = r.sample(names, min(len(names), r.randint(1, 2)))
+                    b.op(op='cforce', cid=cid, tasks=ns, names=ns, recompute=r.random() < 0.3, delete=r.random() < 0.3 and b.delete_ok(cid, ns, live))
+            elif t < 0.95:
+                _inspect(b, r.choice(live), ['has_data', 'data_path', 'flags', 'tasks_df'])
+            else:
+                cid = live.pop(r.randrange(len(live)))
+                b.op(op='drop', cid=cid)
+    return b.scenario(swarm=swarm)
+
+
+def _mbuild(b, r):
+    world = b.world
+    k = r.randint(2, min(4, max(2, len(world['roots']))))
+    roots = [r.randrange(len(world['roots'])) for _ in range(k)]
+    mid = f'm{b.cids}'
+    b.cids += 1
+    members = []
+    for j, root in enumerate(roots):
+        rd = _equiv_render(b, root)
+        rd['name_suffix'] = f'_m{j}'       # MultiChain requires distinct config names
+        rd.pop('outer_ns', None) if r.random() < 0.7 else None
+        members.append({'root': root, 'render': rd})
+    b.op(op='mbuild', mid=mid, members=members)
+    cids = []
+    for j, m in enumerate(members):
+        cid = f'{mid}/{j}'
+        b.chain_info[cid] = (m['root'], m['render'].get('outer_ns'))
+        cids.append(cid)
+    b.multi_members = getattr(b, 'multi_members', {})
+    b.multi_members[mid] = cids
+    return cids
+
+
+def gen_c07(r, knobs=None):
+    """force-heavy histories: Task.force / Chain.force with every flag combination on arbitrary task sets, stores with
+    results present or missing, arbitrary later request orders, other chains and processes on the same store."""
+    kn = {'n_roots': (1, 2), 'n_pipes': (1, 4), 'classes_per_pipe': (1, 4)}
+    kn.update(knobs or {})
+    world = gen.gen_world(r, kn)
+    b = B(world, r)
+    nproc = r.randint(1, 3)
+    for pi in range(nproc):
+        b.proc(hs=r.choice([0, 1]))
+        root = r.randrange(len(world['roots']))
+        live = [b.build(root, b.render(rich=r.random() < 0.4))]
+        # populate part of the store
+        names = b.names(live[0])
+        for n in r.sample(names, r.randint(0, len(names))):
+            b.req(live[0], n)
+        for _ in range(r.randint(2, 10)):
+            t = r.random()
+            cid = r.choice(live)
+            names = b.names(cid)
+            if t < 0.2:
+                n = r.choice(names)
+                b.op(op='tforce', cid=cid, task=n, name=n, delete=r.random() < 0.4 and b.delete_ok(cid, [n], live))
+            elif t < 0.45:
+                ns = r.sample(names, min(len(names), r.choice([1, 1, 2, 3])))
+                b.op(op='cforce', cid=cid, tasks=ns, names=ns, recompute=r.random() < 0.45,
+                     delete=r.random() < 0.4 and b.delete_ok(cid, ns, live), single_as_str=r.random() < 0.5)
+            elif t < 0.8:
+                b.req(cid, r.choice(names))
+            elif t < 0.92:
+                _inspect(b, cid, ['has_data', 'flags', 'flags', 'tasks_df'])
+            else:
+                root2 = r.randrange(len(world['roots']))
+                live.append(b.build(root2, b.render(rich=False)))
+        # closing sweep: everything requested once, then a fresh chain loads all of it without running
+        cid = r.choice(live)
+        order = list(b.names(cid))
+        r.shuffle(order)
+        for n in order:
+            b.req(cid, n)
+        b.op(op='insp', cid=cid, kind='has_data')
+    return b.scenario()
+
+
+def gen_c06(r, knobs=None):
+    """durable round trip: compute in one simulated process, load in another (other hash seed), compare with what run
+    returned; value domain biased to large/boundary values."""
+    kn = {'kinds': PERSISTED_KINDS[:-1], 'n_roots': (1, 1), 'n_pipes': (1, 2), 'classes_per_pipe': (2, 4)}
+    kn.update(knobs or {})
+    world = gen.gen_world(r, kn)
+    b = B(world, r)
+    b.proc(hs=r.choice([0, 1, 2]))
+    c0 = b.build(0, b.render(rich=False))
+    names = b.names(c0)
+    order = list(names)
+    r.shuffle(order)
+    for n in order:
+        b.req(c0, n)
+    if r.random() < 0.3:
+        # a second chain in the same process loads what the first one stored
+        c1 = b.build(0, b.render(rich=False))
+        for n in order[: r.randint(1, len(order))]:
+            b.req(c1, n)
+            if r.random() < 0.3:
+                b.op(op='tforce', cid=c1, task=n, name=n, delete=False)
+                b.req(c1, n)
+                c2 = b.build(0, b.render(rich=False))
+                b.req(c2, n)
+    for _ in range(r.randint(1, 2)):
+        b.proc(hs=r.choice([0, 1, 2]))
+        c = b.build(0, b.render(rich=r.random() < 0.3))
+        order = list(b.names(c))
+        r.shuffle(order)
+        for n in order:
+            b.req(c, n)
+            if r.random() < 0.2:
+                b.req(c, n)
+    return b.scenario()
+
+
+def gen_c02(r, knobs=None):
+    """the same root built under composed computation-preserving rewritings, in processes with different hash seeds;
+    later chains must find (not recompute) what earlier ones stored."""
+    kn = {'n_roots': (1, 3), 'n_pipes': (1, 4), 'max_params': 4}
+    kn.update(knobs or {})
+    world = gen.gen_world(r, kn)
+    b = B(world, r)
+    nproc = r.randint(2, 4)
+    hs = [0, 1, 2]
+    r.shuffle(hs)
+    for pi in range(nproc):
+        b.proc(hs=hs[pi % 3])
+        for _ in range(r.randint(1, 3)):
+            root = r.randrange(len(world['roots']))
+            cid = b.build(root, _equiv_render(b, root) if pi or r.random() < 0.5 else {'form': 'mem'})
+            names = b.names(cid)
+            for n in r.sample(names, r.randint(0, len(names))):
+                b.req(cid, n)
+            if r.random() < 0.3:
+                b.op(op='insp', cid=cid, kind='data_path')
+    return b.scenario()
